@@ -864,3 +864,68 @@ def r09_14(ctx, rule='R09.14'):
     ctx.ob(rule, 'shrink:loop-left-after-n-workers', ok, fi, brk[0],
            'break under %s' % sorted(t for b in brk for (t, p) in q.guards_norm(fi, b)) if not ok else
            'break exactly when %d-based index %s reached %s' % (int(start), iv, P))
+
+
+def r14_10(ctx, rule='R14.10'):
+    ctx.rule(rule, 'a free block that is merged away leaves all three free indexes: Heap._absorb removes it from the '
+                   'start index, the stop index and from its length bucket on every path (a block left in its bucket is '
+                   'handed out again although its bytes now belong to the merged block)', floor=3)
+    fi = _find(ctx, 'heap:Heap._absorb')
+    cfg = fi.cfg
+    B = fi.positional_params()[1]
+    dels = {}
+    for n in cfg.nodes:
+        if n.id in cfg.live and isinstance(n.ast, ast.Delete):
+            for t in n.ast.targets:
+                if isinstance(t, ast.Subscript):
+                    dels.setdefault(ast.unparse(t.value), []).append(n)
+    for idx in ('self._start_to_block', 'self._stop_to_block'):
+        ns = dels.get(idx, [])
+        ok = bool(ns) and cfg.must_pass([cfg.entry], [cfg.exit], ns, skip_labels=('x',))[0]
+        ctx.ob(rule, '_absorb:leaves-%s' % idx.split('.')[1], ok, fi, ns[0] if ns else None,
+               'del %s[...] on every path' % idx)
+    buckets = {ast.unparse(t) for (dn, t, v) in q.assigns(fi, None)
+               if v is not None and isinstance(t, ast.Name) and 'self._len_to_seq[' in ast.unparse(v)}
+    rem = [n for (n, c) in q.calls(fi, lambda t: t.endswith('.remove'))
+           if (ast.unparse(c.func.value) in buckets or 'self._len_to_seq[' in ast.unparse(c.func.value))
+           and c.args and ast.unparse(c.args[0]) == B]
+    ok = bool(rem) and cfg.must_pass([cfg.entry], [cfg.exit], rem, skip_labels=('x',))[0]
+    ctx.ob(rule, '_absorb:leaves-its-length-bucket', ok, fi, rem[0] if rem else None,
+           '<bucket of its length>.remove(block) on every path')
+
+
+def r16_16(ctx, rule='R16.16'):
+    ctx.rule(rule, 'an item put on a Queue is on its way: put() wakes the feeder after the append on every path and starts '
+                   'it when there is none; the feeder hands every item it takes from the buffer (other than the '
+                   'sentinel) to send_bytes before it takes the next', floor=5)
+    for cname in ('Queue', 'JoinableQueue'):
+        fi = _find(ctx, 'queues:%s.put' % cname)
+        cfg = fi.cfg
+        app = q.nodes_calling(fi, 'self._buffer.append')
+        q.need(app, '%s.put does not append to the buffer' % cname)
+        nt = q.nodes_calling(fi, 'self._notempty.notify')
+        ok = bool(nt) and cfg.must_pass([a.id for a in app], [cfg.exit], nt, skip_labels=('x',))[0]
+        ctx.ob(rule, '%s.put:feeder-woken-after-the-append' % cname, ok, fi, nt[0] if nt else app[0],
+               'self._notempty.notify() on every normal path after self._buffer.append(obj)')
+        st = q.nodes_calling(fi, 'self._start_thread')
+        none = q.outcome_edges(fi, 'self._thread is None', True)
+        ok = bool(st) and bool(none) and cfg.must_pass([b for (a, b, l) in none if b not in {s.id for s in st}],
+                                                         [a.id for a in app], st, skip_labels=('x',))[0]
+        ctx.ob(rule, '%s.put:feeder-started-when-there-is-none' % cname, ok, fi, st[0] if st else None,
+               'under `self._thread is None` the append is reached only through self._start_thread()')
+    fi = _find(ctx, 'queues:Queue._feed')
+    cfg = fi.cfg
+    pop_names = {ast.unparse(t) for (dn, t, v) in q.assigns(fi, None) if v is not None and isinstance(t, ast.Name)
+                 and ast.unparse(v).endswith('.popleft')}
+    takes = [n for (n, c) in q.calls(fi, lambda t: t in pop_names or t.endswith('.popleft'))]
+    q.need(takes, 'Queue._feed takes nothing from the buffer')
+    send = fi.positional_params()[2]
+    sends = q.nodes_calling(fi, send)
+    q.need(sends, 'Queue._feed never calls its send_bytes parameter')
+    is_sent = q.outcome_edges(fi, lambda t: ' is ' in t and 'sentinel' in t.lower(), True)
+    r = cfg.reach([t.id for t in takes], block_nodes=[s.id for s in sends], block_edges=is_sent, include_src=False,
+                  skip_labels=('x',))
+    again = [t for t in takes if t.id in r]
+    ctx.ob(rule, '_feed:every-item-taken-is-sent', not again and cfg.exit.id not in r, fi, again[0] if again else sends[0],
+           'between two takes (or a take and the end) lies a completed send_bytes, unless the item was the sentinel'
+           if not again and cfg.exit.id not in r else 'an item can be taken from the buffer and dropped without being written to the pipe')
